@@ -50,7 +50,7 @@ class TaskShadow(object):
                  "decided_strategy", "start_t", "finish_t", "cancel_t", "n_start",
                  "n_finish", "n_cancel", "runtime", "demand", "worker", "place_t",
                  "remove_t", "n_preempt", "fuzz_hi", "resolved_prob", "n_sched",
-                 "ever_offered", "batch", "fallback")
+                 "ever_offered", "batch", "fallback", "same_profile_busy")
 
     def __init__(self, key, task, node, graph):
         self.key = key
@@ -82,6 +82,7 @@ class TaskShadow(object):
         self.resolved_prob = None
         self.ever_offered = False
         self.fallback = V
+        self.same_profile_busy = 0
         self.batch = None
 
 
@@ -533,6 +534,21 @@ class RunMonitor(H.NullMonitor):
             sh.decided_pool = pl.worker_pool_id
             sh.decided_worker = pl.worker_id
             sh.decided_strategy = pl.execution_strategy
+            # was the decided pool, at the decided instant, still occupied by a running
+            # task of the *same work profile* (used to attribute a known finding)
+            sh.same_profile_busy = 0
+            if sh.node is not None and sh.node.profile is not None:
+                for osh in self.tasks.values():
+                    if osh is sh or osh.state != RUN or osh.node is None:
+                        continue
+                    if osh.start_t is not None \
+                            and osh.runtime is not None \
+                            and osh.start_t + osh.runtime > sh.decided_t \
+                            and self.pool_of_worker.get(osh.worker) == sh.decided_pool:
+                        # 1 = some running task, 2 = one of the same work profile
+                        sh.same_profile_busy = max(
+                            sh.same_profile_busy,
+                            2 if osh.node.profile == sh.node.profile else 1)
             if sh.decided_t > t:
                 self.stat("placements_for_future")
             if not sh.released:
@@ -683,7 +699,11 @@ class RunMonitor(H.NullMonitor):
                                                      and s > sh.decided_t),
                           planned_completion_by_deadline=bool(
                               sh.decided_t is not None and sh.runtime is not None
-                              and sh.decided_t + sh.runtime <= dl))
+                              and sh.decided_t + sh.runtime <= dl),
+                          batching=bool(self.flags.get("scheduler_enable_batching")),
+                          decided_pool_had_running_task=bool(sh.same_profile_busy),
+                          decided_pool_busy_with_same_profile=(
+                              sh.same_profile_busy == 2))
         self.stat("finishes")
 
     def _check_placement_attempt(self, sim, ev):
